@@ -287,7 +287,7 @@ fn rq_json(pdu: &Pdu) -> Option<Value> {
 }
 
 /// run one case; returns (trace events, mismatches against the TLC-expected outcome)
-fn run_c29_case(c: &Value, selftest: bool, is_async: bool) -> (Vec<Value>, Vec<Value>) {
+fn run_c29_case(c: &Value, selftest: bool, is_async: bool) -> (Vec<Value>, Vec<Value>, Vec<Value>) {
     let (opts_j, cfg, exp) = (&c["opts"], &c["cfg"], &c["exp"]);
     let mut ev = vec![json!({"ev": "c29", "opts": opts_j, "cfg": cfg, "kind": c["kind"], "api": if is_async { "async" } else { "sync" }})];
     let mut mism = Vec::new();
@@ -479,7 +479,19 @@ fn run_c29_case(c: &Value, selftest: bool, is_async: bool) -> (Vec<Value>, Vec<V
             ev.push(json!({"ev": "send", "side": side, "via": "send", "n": [65535, 65535], "pdvs": [], "ret": "unattributed", "recv": "none", "wire": lens}));
         }
     }
-    (ev, mism)
+    // the same connection as a whole-life-cycle trace (TCP connect to close) for Trace_AssocLife
+    let mut life = vec![json!({"ev": "reset", "scripted": [], "source": "c29", "kind": c["kind"], "api": if is_async { "async" } else { "sync" }})];
+    for e in &log {
+        match e.what {
+            "pdu" => life.push(json!({"ev": "pdu", "from": e.from, "len": e.len, "kind": match e.pdu_type {
+                1 => "AssocRQ", 2 => "AssocAC", 3 => "AssocRJ", 4 => "PData", 5 => "ReleaseRQ", 6 => "ReleaseRP", 7 => "Abort", _ => "Other" }})),
+            "closed" if e.how == "WouldBlock" || e.how == "TimedOut" => life.push(json!({"ev": "stuck", "by": e.from})),
+            "closed" => life.push(json!({"ev": "closed", "by": e.from, "how": e.how})),
+            "garbage" => life.push(json!({"ev": "pdu", "from": e.from, "kind": "Other", "len": e.len})),
+            _ => {}
+        }
+    }
+    (ev, mism, life)
 }
 
 fn run_c29(args: &std::collections::HashMap<String, String>) {
@@ -488,7 +500,7 @@ fn run_c29(args: &std::collections::HashMap<String, String>) {
     let is_async = args.contains_key("async");
     let jobs: usize = args.get("jobs").map(|s| s.parse().unwrap()).unwrap_or(6);
     let next = std::sync::atomic::AtomicUsize::new(0);
-    let results: std::sync::Mutex<Vec<Option<(Vec<Value>, Vec<Value>)>>> = std::sync::Mutex::new((0..cases.len()).map(|_| None).collect());
+    let results: std::sync::Mutex<Vec<Option<(Vec<Value>, Vec<Value>, Vec<Value>)>>> = std::sync::Mutex::new((0..cases.len()).map(|_| None).collect());
     std::thread::scope(|sc| {
         for _ in 0..jobs {
             sc.spawn(|| loop {
@@ -502,12 +514,18 @@ fn run_c29(args: &std::collections::HashMap<String, String>) {
         }
     });
     let mut w = NdjsonWriter::create(&args["out"]);
+    let mut lw = args.get("life-out").map(|p| NdjsonWriter::create(p));
     let mut rep = Report::new();
     let (mut est, mut sends) = (0usize, 0usize);
     let mut distinct = std::collections::BTreeSet::new();
     for (i, slot) in results.into_inner().unwrap().into_iter().enumerate() {
-        let (ev, mism) = slot.expect("case result");
+        let (ev, mism, life) = slot.expect("case result");
         rep.cases += 1;
+        if let Some(lw) = lw.as_mut() {
+            for e in &life {
+                lw.emit(e);
+            }
+        }
         for e in &ev {
             if e["ev"] == "est" && e["rq"]["est"] == true {
                 est += 1;
@@ -523,6 +541,9 @@ fn run_c29(args: &std::collections::HashMap<String, String>) {
         }
     }
     let lines = w.finish();
+    if let Some(lw) = lw {
+        rep.extra.insert("life_events".into(), json!(lw.finish()));
+    }
     rep.extra.insert("events".into(), json!(lines));
     rep.extra.insert("established".into(), json!(est));
     rep.extra.insert("send_calls".into(), json!(sends));
